@@ -433,3 +433,43 @@ def harvest_test_ddl(scratch):
         except Exception:
             pass
     return out
+
+
+def flat_encode(v, out=None):
+    """plain python value -> the prefix code read by Base/Codec.v"""
+    top = out is None
+    if out is None:
+        out = []
+    if v is None:
+        out.append("N")
+    elif v is True:
+        out.append("T")
+    elif v is False:
+        out.append("F")
+    elif isinstance(v, int):
+        out += ["I", str(v)]
+    elif isinstance(v, str):
+        out += ["S", v]
+    elif isinstance(v, (list, tuple)):
+        out += ["L" if isinstance(v, list) else "U", str(len(v))]
+        for x in v:
+            flat_encode(x, out)
+    elif isinstance(v, dict):
+        out += ["D", str(len(v))]
+        for k, x in v.items():
+            if not isinstance(k, str):
+                raise ValueError("non-str key")
+            out.append(k)
+            flat_encode(x, out)
+    else:
+        raise ValueError("not a pyval: %r" % (v,))
+    return out
+
+
+def same_outcome(io, mo):
+    """implementation outcome vs model outcome (canonical comparison)"""
+    if io[0] == "ok":
+        return mo[0] == "ok" and canon_impl(io[1]) == canon_model(mo[1])
+    if io[0] == "raise":
+        return mo[0] == "raise" and mo[1] == io[1]
+    return False
